@@ -440,7 +440,7 @@ def _kwonly(func):
         return ()
 
 from copy import copy
-def _keygen(func, ignored, *args, **kwds):
+def _keygen(func, ignored, /, *args, **kwds):
     """generate a 'key' from the (*args,**kwds) suitable for use in caching
 
     func is the function being called
